@@ -138,3 +138,30 @@ func (w *World) IsParentMismatchSKLeak(ev *Event, leaked kit.SecretInfo) bool {
 	}
 	return false
 }
+
+// MismatchParents returns the fingerprints of the parent SKs of every stored IK this
+// operation fell back to after a refused IK insert (the SKs the listed finding
+// sk-ref-leak-on-parent-mismatch may leave referenced).
+func (w *World) MismatchParents(ev *Event) []string {
+	var res []string
+	calls := w.Log.Calls[ev.CallFrom:ev.CallTo]
+	for i, c := range calls {
+		if c.Target != "store" || c.Op != "Store" || c.OK || len(c.ID) < 4 || c.ID[:4] != "_IK_" {
+			continue
+		}
+		for _, d := range calls[i+1:] {
+			if d.Target == "store" && d.Op == "LoadLatest" && d.ID == c.ID && d.OK {
+				row := w.Store.Get(d.ID, d.Found)
+				if row == nil || row.Rec.ParentKeyMeta == nil {
+					continue
+				}
+				if parent := w.Store.Get(row.Rec.ParentKeyMeta.ID, row.Rec.ParentKeyMeta.Created); parent != nil {
+					if pt, err := kit.KMSUnwrap(w.KMS.Master, parent.Rec.EncryptedKey); err == nil {
+						res = append(res, kit.Fp(pt))
+					}
+				}
+			}
+		}
+	}
+	return res
+}
